@@ -74,16 +74,28 @@ func VerifC20(args []string) {
 	// the variables go through the public GenVariables option, one call per variable so that
 	// their order does not depend on map iteration; the integers are passed as different Go
 	// integer types (the option normalises them to int64)
+	// 'L' in the variable classes: the option is built from a map that receives its values afterwards
+	// (the variables are those the map holds when the expression is generated)
+	late := gives('L')
+	genVar := func(name string, val interface{}, placeholder interface{}) GenExprOption {
+		if !late {
+			return GenVariables(map[string]interface{}{name: val})
+		}
+		mm := map[string]interface{}{name: placeholder}
+		opt := GenVariables(mm)
+		mm[name] = val
+		return opt
+	}
 	var opts []GenExprOption
 	for i, nv := range numVars {
 		var raw interface{} = nv.Res
 		if i == 0 {
 			raw = int(nv.Res.(int64))
 		}
-		opts = append(opts, GenVariables(map[string]interface{}{nv.Expr: raw}))
+		opts = append(opts, genVar(nv.Expr, raw, int64(1)))
 	}
 	for _, bv := range boolVars {
-		opts = append(opts, GenVariables(map[string]interface{}{bv.Expr: bv.Res}))
+		opts = append(opts, genVar(bv.Expr, bv.Res, DNE))
 	}
 	for _, ov := range otherVars {
 		opts = append(opts, GenVariables(map[string]interface{}{ov.Expr: ov.Res}))
